@@ -1106,10 +1106,11 @@ impl<'a, 'b, W: Write> Serializer for &'a mut YamlSerializer<'b, W> {
                 body_col = body_col.max(parent_col + self.indent_step);
             }
             // Compute the indentation indicator N for block scalars.
-            // N = number of spaces the parser will strip.
+            // N = indentation of the body relative to the parent entry (at the document root:
+            // the number of spaces the parser will strip).
             // We must emit an explicit indicator when the first non-empty content line
             // has leading whitespace, so the parser knows how much to strip.
-            let indent_n = body_col;
+            let indent_n = body_col - self.block_parent_col.unwrap_or(0);
 
             // Check if we need an explicit indentation indicator.
             // Required when the first non-empty line has leading whitespace.
